@@ -1,18 +1,19 @@
 PROPS["C12"] = dict(
     jobs=[
-        job("fast", "c12_mmio", flavour="fast", cases={Q: 300, T: 8000}),
+        job("fast", "c12_mmio", flavour="fast", cases={Q: 200, T: 4000}),
         # same workload under ASan+UBSan (detect_stack_use_after_return=1): a sanitizer abort kills the worker and the
         # driver turns it into a violation keyed by the sanitizer summary (crash_is_violation)
-        job("asan", "c12_mmio", flavour="asan", cases={Q: 40, T: 1000}),
+        job("asan", "c12_mmio", flavour="asan", cases={Q: 25, T: 500}),
     ],
     crash_is_violation=True,
     rule="one case = a fresh Teakra + the register-file model of models/mmio_map.h (transcribed from timer/apbp/ahbm/miu/dma/"
-         "icu/btdmp.md); ~370 initialising writes (distinct contents in all 8 DMA channel copies and every plain register) then "
+         "icu/btdmp.md); ~240 initialising writes (distinct contents in all 8 DMA channel copies and every plain register) then "
          "800 random operations: writes of arbitrary 16-bit values to documented offsets, to one-address-bit-off / odd / arbitrary "
          "undocumented offsets, channel selects with arbitrary 16-bit values, relocations, safe DMA starts, timer restart/event "
          "sequences, FIFO fills/flushes, mailbox and semaphore operations; each write goes through the DSP data path "
          "(mmio_base+off) or the host accessor at a random 0x800 mirror; after EVERY operation all documented side-effect-free "
-         "registers are read back through one path (alternating) and compared on their documented bits. distinct_nontrivial = "
+         "registers are read back through one path (alternating) and compared on their documented bits, plus the host API views "
+         "AHBMGetUnitSize/Direction/DmaChannel and DMAChan0GetSrcHigh/DstHigh of the same fields. distinct_nontrivial = "
          "distinct (register, path) pairs written and compared plus distinct coupling classes exercised (restart by mode, event "
          "decrement/irq, start per channel, select per channel, relocation target, trigger/ack, fifo send/full/flush, mailbox)",
     floors={
@@ -21,13 +22,13 @@ PROPS["C12"] = dict(
             "dma_starts": 9000, "timer_restarts": 15000, "timer_event_decrements": 25000, "timer_event_irqs": 7000,
             "relocations_aligned": 25000, "icu_triggers": 5000, "icu_acks": 5000, "fifo_full_seen": 30000,
             "fifo_flushes": 15000, "mailbox_replies": 15000, "mailbox_receives": 20000, "host_sends": 20000,
-            "zpage_deliberate_assertions": 10, "mirror": 32, "cases_completed": 5000},
-        T: {"writes_dsp": 30000000, "writes_host": 30000000, "writes_undocumented": 3000000, "sweeps_dsp": 30000000,
-            "sweeps_host": 30000000, "rw_regs_compared": 5000000000, "selects": 4000000, "selects_wide_value": 1000000,
-            "dma_starts": 300000, "timer_restarts": 500000, "timer_event_decrements": 1000000, "timer_event_irqs": 250000,
-            "relocations_aligned": 1000000, "icu_triggers": 150000, "icu_acks": 150000, "fifo_full_seen": 1000000,
-            "fifo_flushes": 500000, "mailbox_replies": 500000, "mailbox_receives": 700000, "host_sends": 700000,
-            "zpage_deliberate_assertions": 300, "mirror": 32, "cases_completed": 200000},
+            "zpage_deliberate_assertions": 10, "mirror": 32, "cases_completed": 3400},
+        T: {"writes_dsp": 15000000, "writes_host": 15000000, "writes_undocumented": 1500000, "sweeps_dsp": 15000000,
+            "sweeps_host": 15000000, "rw_regs_compared": 2500000000, "selects": 2000000, "selects_wide_value": 500000,
+            "dma_starts": 150000, "timer_restarts": 250000, "timer_event_decrements": 500000, "timer_event_irqs": 125000,
+            "relocations_aligned": 500000, "icu_triggers": 75000, "icu_acks": 75000, "fifo_full_seen": 500000,
+            "fifo_flushes": 250000, "mailbox_replies": 250000, "mailbox_receives": 350000, "host_sends": 350000,
+            "zpage_deliberate_assertions": 150, "mirror": 32, "cases_completed": 70000},
     },
     ready=True,
     technique="runtime monitoring: lock-step independent register-file model (from the *.md hardware notes) against the real "
